@@ -495,10 +495,16 @@ func cmdCheck(args []string) int {
 		eng.Workers = *workers
 	}
 	if *tier == "thorough" {
-		eng.Timeout = 120 * time.Second
+		eng.Timeout = 180 * time.Second
 	}
 	for _, p := range []string{"unicode", "github.com/miekg/dns", "golang.org/x/net/idna", "golang.org/x/net/publicsuffix", "unicode/utf8", "strconv", "math/bits", "golang.org/x/text/unicode/norm", "golang.org/x/text/unicode/bidi", "golang.org/x/text/secure/bidirule", "encoding/hex", "encoding/base64", "encoding/binary"} {
 		eng.SharedInitPkgs[p] = true
+	}
+
+	// packages with lazily initialised package-level tables (sync.Once + map writes)
+	// must not share their globals between the paths explored in parallel
+	for _, p := range []string{"net/textproto", "net/http", "mime"} {
+		eng.FreshInitPkgs[p] = true
 	}
 
 	known := loadKnown()
